@@ -93,6 +93,28 @@ def _job(part):
                     out.append(("bad", "strict|%s|%s" % (name(a), name(b)), "%s < %s disagrees with <= and ==" % (name(a), name(b))))
                 n_ok += 1
             out.append(("ok", "logic order", "%d logics, %d pairs" % (len(logics), n_ok)))
+        elif part == "families":
+            # the derived families solvers declare their supported logics with: each is the sub-family of the
+            # final table of pySMT logics its name states
+            fams = {"PYSMT_QF_LOGICS": lambda l: l.attrs.get("quantifier_free") is True,
+                    "BV_LOGICS": lambda l: l.attrs["theory"].attrs.get("bit_vectors") is True,
+                    "ARRAYS_LOGICS": lambda l: l.attrs["theory"].attrs.get("arrays") is True,
+                    "ARRAYS_CONST_LOGICS": lambda l: l.attrs["theory"].attrs.get("arrays_const") is True}
+            n_ok = 0
+            for fam, pred in sorted(fams.items()):
+                try:
+                    members = set(id(l) for l in it.iterate(G(fam)))
+                except (AbsRaise, Unsupported, KeyError):
+                    continue          # the family does not exist in this tree: nothing to decide
+                want = [l for l in pysmt_l if pred(l)]
+                missing = [name(l) for l in want if id(l) not in members]
+                extra = [name(l) for l in pysmt_l if id(l) in members and not pred(l)]
+                if missing or extra:
+                    out.append(("bad", "family|%s" % fam, "%s is not the family of pySMT logics its name states: missing %s, extra %s"
+                                % (fam, missing[:6], extra[:6])))
+                else:
+                    n_ok += 1
+            out.append(("ok", "derived families", "%d families" % n_ok))
         else:
             closer = G("get_closer_logic")
             which = {"closer-smtlib": smtlib_l, "closer-pysmt": pysmt_l, "closer-subset": pysmt_l[::3]}[part]
@@ -144,7 +166,7 @@ def _job(part):
     return res[0].detail
 
 
-PARTS = ["theory-order", "combine", "logic-order", "closer-smtlib", "closer-pysmt", "closer-subset"]
+PARTS = ["theory-order", "combine", "logic-order", "closer-smtlib", "closer-pysmt", "closer-subset", "families"]
 
 
 def run(ctx):
@@ -163,4 +185,4 @@ def run(ctx):
                 rs.unrec("%s: %s" % (key, detail))
             else:
                 ctx.finding(rs, key, detail, "pysmt/logics.py")
-    ctx.floor(rs, 6)
+    ctx.floor(rs, 7)
